@@ -204,17 +204,18 @@ func (vc *VC) instr(fr *Frame, st *State, ins ssa.Instruction) {
 		fr.defers = append(fr.defers, deferred{t, st.reach})
 	case *ssa.RunDefers:
 		vc.runDefers(fr, st)
+	case *ssa.Send:
+		// a channel send may block: other goroutines run meanwhile (channel contents are not modelled)
+		vc.assumed["channel send in "+vc.eng.funcName(fr.fn)+": a blocking point, everything shared may change"] = true
+		vc.havocAll(st, fr.allLocalRoots())
 	case *ssa.Go:
 		vc.assumed["goroutine spawned in "+vc.eng.funcName(fr.fn)+": its effects after the spawn point are not modelled"] = true
 		vc.havocAll(st, fr.allLocalRoots())
 	case *ssa.Select:
 		// which case fires (and what is received) is arbitrary; a blocking select lets other goroutines run
 		vc.assumed["select in "+vc.eng.funcName(fr.fn)+": the chosen case and received values are arbitrary"] = true
-		for _, sst := range t.States {
-			if sst.Dir == types.SendOnly {
-				panic(unsupported("select with a send case"))
-			}
-		}
+		// send cases: channel contents are not modelled, a send has no effect on the heap; whether it is
+		// the case that fires is as arbitrary as for the receive cases
 		if t.Blocking {
 			vc.havocAll(st, fr.allLocalRoots())
 		}
@@ -232,8 +233,6 @@ func (vc *VC) instr(fr *Frame, st *State, ins ssa.Instruction) {
 			tup = append(tup, v)
 		}
 		fr.tuples[t] = tup
-	case *ssa.Send:
-		panic(unsupported(fmt.Sprintf("%T in %s", ins, fr.fn)))
 	case *ssa.SliceToArrayPointer:
 		x := vc.val(fr, t.X)
 		fr.vals[t] = ElemPtr(SBase(x), SOff(x)) // approximate: pointer to element 0
